@@ -476,7 +476,12 @@ fn c07(r: &mut Rng, i: u64, p: &HashMap<String, String>) -> Vec<Value> {
                   let its: Vec<Vec<N>> = (0..m).map(|_| if g.r.chance(1, 5) { vec![] } else { g.flow(2) }).collect();
                   let lis: Vec<N> = its.iter().map(|c| N::el("li", c.clone())).collect();
                   let has_start = st != 1 || g.r.chance(1, 2);
-                  let ol = if has_start { N::ela("ol", vec![("start", format!("{}", st))], lis) } else { N::el("ol", lis) };
+                  // (other attributes before and after `start`)
+                  let ol = if has_start { let mut at: Vec<(&str, String)> = vec![];
+                                          if g.r.chance(1, 3) { at.push((*g.r.pick(&["class", "type", "title"]), "a".to_string())); }
+                                          at.push(("start", format!("{}", st)));
+                                          if g.r.chance(1, 5) { at.push(("reversed", "".to_string())); }
+                                          N::ela("ol", at, lis) } else { N::el("ol", lis) };
                   let last = st + m as i64 - 1;
                   let pw = format!("{}. ", st).len().max(format!("{}. ", last).len()) as u64;
                   (vec![ol], its, pw, json!({"kind": "ol", "start": st})) }
@@ -910,7 +915,8 @@ fn repeat_root_tags(r: &mut Rng, html: &str, ids: &[String]) -> String {
     let id2 = if !ids.is_empty() && r.chance(1, 2) { r.pick(ids).clone() } else { "i77".to_string() };
     let first = match r.below(3) { 0 => format!("<body class=\"{}\">", c1), 1 => format!("<body class=\"{}\" id=\"i76\">", c1), _ => "<body id=\"i76\">".to_string() };
     let second = format!("<body class=\"{}\" id=\"{}\" title=\"t\">", c2, id2);
-    let mut out = html.replacen("<body>", &format!("{}{}", first, if r.chance(1, 2) { second.clone() } else { String::new() }), 1);
+    // (text directly in the body shows the body's own colour)
+    let mut out = html.replacen("<body>", &format!("{}{}tbody ", first, if r.chance(1, 2) { second.clone() } else { String::new() }), 1);
     if r.chance(1, 2) { out = out.replacen("</body>", &format!("{}</body>", second), 1); }
     if r.chance(1, 3) { out = out.replacen("<html>", &format!("<html class=\"{}\">", c1), 1).replacen("</body>", &format!("<html class=\"{}\"></body>", c2), 1); }
     out
